@@ -5,6 +5,7 @@ import Gv.Driver.Signature
 import Gv.Driver.Layout
 import Gv.Driver.Gen
 import Gv.Driver.Eval
+import Gv.Driver.Namer
 
 open Gv Gv.Sexp Gv.Driver
 
@@ -23,6 +24,7 @@ def dispatch (req : Sexp) : Sexp :=
   | some "misc" => handleMisc req
   | some "gen" => handleGen req
   | some "eval" => handleEval req
+  | some "namer" => handleNamer req
   | _ => mkList "err" [.atom "unknown-request"]
 
 partial def loop (hin hout : IO.FS.Stream) : IO Unit := do
